@@ -12,6 +12,7 @@ import (
 	conformancev1 "connectrpc.com/conformance/internal/gen/proto/go/connectrpc/conformance/v1"
 	"connectrpc.com/connect"
 	"google.golang.org/protobuf/encoding/protojson"
+	"google.golang.org/protobuf/encoding/protowire"
 	"google.golang.org/protobuf/proto"
 	"google.golang.org/protobuf/reflect/protoreflect"
 	"google.golang.org/protobuf/types/known/anypb"
@@ -313,9 +314,31 @@ func verifC18CodecRT(args []vsx) vsx {
 	return vL(vI(format), verifC18CodecResult(err, &got, msg))
 }
 
+// the "unknown" bytes of a tree must be a sequence of well-formed fields with numbers no
+// conformance message uses; anything else is outside the case format (the shrinker skips it)
+func verifC18WellFormed(t verifC18Tree) bool {
+	b := t.unknown
+	for len(b) > 0 {
+		num, _, n := protowire.ConsumeField(b)
+		if n < 0 || num < 100 {
+			return false
+		}
+		b = b[n:]
+	}
+	for _, s := range t.subs {
+		if !verifC18WellFormed(s) {
+			return false
+		}
+	}
+	return true
+}
+
 func verifC18CodecUnknown(args []vsx) vsx {
 	codec := verifC18Codec(args[0].i)
 	tree := verifC18ParseTree(args[1])
+	if args[0].i == 0 && !verifC18WellFormed(tree) {
+		return vL(vS("bad-case"))
+	}
 	var data []byte
 	var err error
 	if args[0].i == 0 {
